@@ -186,25 +186,41 @@ theorem evalE_debug_compare (s : St) (c : Ctx) (ops : List CmpOpK) (cs : List Ex
   | [_], _ :: _ :: _ => simp [evalE]
   | _ :: _ :: _, _ => simp [evalE]
 
-theorem fold_debugKeep (t : PrecTable) (sp : Spacing) (orc : Oracle) (e : Expr) (h : isDebugTest e = true) :
-    isDebugTest (foldE t sp orc e) = true := by
-  unfold isDebugTest at h
-  split at h <;> first | (simp [foldE, foldL, isDebugTest]; done) | (simp at h)
+/-- a comparison whose left side is not the name `__debug__` is an ordinary expression -/
+theorem debugCmp_compare (l : Expr) (ops : List CmpOpK) (cs : List Expr) :
+    debugCmp (.compare l ops cs) =
+      (match nameOf l, ops, cs with
+       | some (x, _), [op], [r] => if x == "__debug__" then some (op, r) else none
+       | _, _, _ => none) := by
+  cases l <;> try rfl
+  rename_i x c
+  match ops, cs with
+  | [op], [r] => rfl
+  | [], _ => rfl
+  | [_], [] => rfl
+  | [_], _ :: _ :: _ => rfl
+  | _ :: _ :: _, _ => rfl
 
-theorem fold_debugNew (t : PrecTable) (sp : Spacing) (orc : Oracle) (s : St) (e : Expr)
-    (h1 : isDebugTest e = false) (h2 : isDebugTest (foldE t sp orc e) = true) : evalE s e = none := by
+theorem fold_dbgCmp (t : PrecTable) (sp : Spacing) (orc : Oracle) (e : Expr) :
+    debugCmp (foldE t sp orc e) = (debugCmp e).map (fun p => (p.1, foldE t sp orc p.2)) := by
   cases e
-  case name x c => simp only [foldE] at h2; rw [h1] at h2; cases h2
   case compare l ops cs =>
-    simp only [foldE] at h2
-    obtain ⟨c, hl⟩ := isDebugTest_compare_left _ _ _ h2
-    have hn : nameOf l = some ("__debug__", c) := by rw [← fold_nameOf_eq t sp orc l, hl]; rfl
-    rw [nameOf_some l _ _ hn]
-    exact evalE_debug_compare s c ops cs
+    simp only [foldE, foldL_eq_map]
+    rw [debugCmp_compare, debugCmp_compare, fold_nameOf_eq]
+    cases nameOf l with
+    | none => rfl
+    | some p =>
+      obtain ⟨x, c⟩ := p
+      match ops, cs with
+      | [op], [r] => simp only [List.map]; split <;> rfl
+      | [], _ => rfl
+      | [_], [] => rfl
+      | [_], _ :: _ :: _ => rfl
+      | _ :: _ :: _, _ => rfl
   case binOp l op r =>
-    simp only [foldE] at h2
-    rcases foldBinOp_shape t sp orc (foldE t sp orc l) op (foldE t sp orc r) with h | ⟨c, h⟩ | ⟨c, h⟩ <;> rw [h] at h2 <;> simp [isDebugTest] at h2
-  all_goals (simp only [foldE] at h2; simp [isDebugTest] at h2)
+    simp only [foldE]
+    rcases foldBinOp_shape t sp orc (foldE t sp orc l) op (foldE t sp orc r) with h | ⟨c, h⟩ | ⟨c, h⟩ <;> rw [h] <;> rfl
+  all_goals (simp only [foldE]; rfl)
 
 def foldMap (t : PrecTable) (sp : Spacing) (orc : Oracle) : ExprMap := ⟨foldE t sp orc, foldArguments t sp orc, false⟩
 
@@ -278,8 +294,7 @@ theorem fold_exprOK (t : PrecTable) (sp : Spacing) (orc : Oracle) : ExprOK (fold
   notName := fun e h => fold_nameOf t sp orc e h
   params := fun a => fold_params t sp orc a
   handlerTy := fun ty => excKind_map _ (fold_nameOf_eq t sp orc) (fun es => by simp [foldE, foldL_eq_map]) (fold_notTuple t sp orc) ty
-  debugKeep := fold_debugKeep t sp orc
-  debugNew := fun s e h1 h2 => fold_debugNew t sp orc s e h1 h2
+  dbgCmp := fold_dbgCmp t sp orc
   core := fold_coreE t sp orc
 
 /-- constant folding of a whole module refines its PyCore behaviour, for any oracle -/
@@ -366,22 +381,23 @@ theorem pos_notTuple (e : Expr) (h : isTuple e = false) : isTuple (ExprMap.mapE 
   all_goals (simp only [ExprMap.mapE, id]; rfl)
 
 open PMV.Transforms in
-theorem pos_debugKeep (e : Expr) (h : isDebugTest e = true) : isDebugTest (ExprMap.mapE id mergePosonly e) = true := by
-  unfold isDebugTest at h
-  split at h <;> first | (simp [ExprMap.mapE, ExprMap.mapL, isDebugTest]; done) | (simp at h)
-
-open PMV.Transforms in
-theorem pos_debugNew (s : St) (e : Expr) (h1 : isDebugTest e = false)
-    (h2 : isDebugTest (ExprMap.mapE id mergePosonly e) = true) : evalE s e = none := by
+theorem pos_dbgCmp (e : Expr) :
+    debugCmp (ExprMap.mapE id mergePosonly e) = (debugCmp e).map (fun p => (p.1, ExprMap.mapE id mergePosonly p.2)) := by
   cases e
-  case name x c => simp only [ExprMap.mapE, id] at h2; rw [h1] at h2; cases h2
   case compare l ops cs =>
-    simp only [ExprMap.mapE, id] at h2
-    obtain ⟨c, hl⟩ := isDebugTest_compare_left _ _ _ h2
-    have hn : nameOf l = some ("__debug__", c) := by rw [← pos_nameOf_eq l, hl]; rfl
-    rw [nameOf_some l _ _ hn]
-    exact evalE_debug_compare s c ops cs
-  all_goals (simp only [ExprMap.mapE, id] at h2; simp [isDebugTest] at h2)
+    simp only [ExprMap.mapE, id, posL_eq_map]
+    rw [debugCmp_compare, debugCmp_compare, pos_nameOf_eq]
+    cases nameOf l with
+    | none => rfl
+    | some p =>
+      obtain ⟨x, c⟩ := p
+      match ops, cs with
+      | [op], [r] => simp only [List.map]; split <;> rfl
+      | [], _ => rfl
+      | [_], [] => rfl
+      | [_], _ :: _ :: _ => rfl
+      | _ :: _ :: _, _ => rfl
+  all_goals (simp only [ExprMap.mapE, id]; rfl)
 
 open PMV.Transforms in
 theorem pos_coreE : (e : Expr) → coreE (ExprMap.mapE id mergePosonly e) = coreE e
@@ -436,8 +452,7 @@ theorem pos_exprOK : ExprOK posMap where
   notName := fun e h => pos_nameOf e h
   params := fun a => pos_params a
   handlerTy := fun ty => excKind_map _ pos_nameOf_eq (fun es => by simp [ExprMap.mapE, posL_eq_map]) pos_notTuple ty
-  debugKeep := pos_debugKeep
-  debugNew := pos_debugNew
+  dbgCmp := pos_dbgCmp
   core := pos_coreE
 
 /-- positional-only conversion refines the PyCore behaviour of a whole module -/
